@@ -4,4 +4,5 @@ let table : (string * (val0 -> val0)) list = [
   "chk_c07", chk_c07;
   "chk_c19_dispatch", chk_c19_dispatch;
   "chk_c19_mdquery", chk_c19_mdquery;
+  "chk_c06", chk_c06;
 ]
